@@ -96,6 +96,7 @@ type sdb interface {
 	Revert(id int)
 	IRoot(del bool) word
 	Commit(del bool) (word, error)
+	CopyCommit(del bool) (word, error)
 	Reopen(root word, disk bool) error
 	DBError() error
 }
@@ -145,6 +146,10 @@ func (u *utState) Revert(id int)       { u.s.RevertToSnapshot(id) }
 func (u *utState) IRoot(del bool) word { return word(u.s.IntermediateRoot(del)) }
 func (u *utState) Commit(del bool) (word, error) {
 	r, err := u.s.Commit(del)
+	return word(r), err
+}
+func (u *utState) CopyCommit(del bool) (word, error) {
+	r, err := u.s.Copy().Commit(del)
 	return word(r), err
 }
 func (u *utState) DBError() error { return u.s.Error() }
@@ -215,6 +220,10 @@ func (u *refState) Revert(id int)       { u.s.RevertToSnapshot(id) }
 func (u *refState) IRoot(del bool) word { return word(u.s.IntermediateRoot(del)) }
 func (u *refState) Commit(del bool) (word, error) {
 	r, err := u.s.Commit(del)
+	return word(r), err
+}
+func (u *refState) CopyCommit(del bool) (word, error) {
+	r, err := u.s.Copy().Commit(del)
 	return word(r), err
 }
 func (u *refState) DBError() error { return u.s.Error() }
@@ -339,7 +348,7 @@ func genStateCase(t *rapid.T) StateCase {
 		"setnonce", "setnonce", "setnonce", "setcode", "setcode", "setcode", "create", "create", "create",
 		"suicide", "suicide", "suicide", "refund", "log",
 		"snapshot", "snapshot", "snapshot", "snapshot", "snapshot", "snapshot", "snapshot", "revert", "revert", "revert", "revert", "revert", "revert",
-		"iroot", "iroot", "commit", "reopen", "reopen",
+		"iroot", "iroot", "commit", "reopen", "reopen", "copycommit", "copycommit",
 	}
 	var c StateCase
 	n := rapid.IntRange(1, 60).Draw(t, "nOps")
@@ -350,7 +359,7 @@ func genStateCase(t *rapid.T) StateCase {
 		case "revert":
 			op.V = rapid.IntRange(0, 5).Draw(t, "depth")
 		case "iroot":
-		case "commit":
+		case "commit", "copycommit":
 			op.Del = rapid.Bool().Draw(t, "del")
 		case "reopen":
 			op.Del = rapid.Bool().Draw(t, "del")
@@ -537,7 +546,7 @@ func runStateCase(c StateCase, x *h.Ctx) {
 		wasEmpty := u.Empty(a)
 		dirty, reset := !existed, false // operations on an absent address create it (journaled, dirty)
 		switch op.Op {
-		case "iroot", "commit", "reopen":
+		case "iroot", "commit", "reopen", "copycommit":
 			if ba, ok := r.bareReset(); ok {
 				r.bareResetCheck(ba, op.Del, where)
 				return
@@ -686,6 +695,20 @@ func runStateCase(c StateCase, x *h.Ctx) {
 			}
 		case "commit":
 			if _, bad := r.commit(op.Del, where); bad {
+				return
+			}
+		case "copycommit":
+			// a copy of the state (what RPC calls, pending-state queries and storage proofs work on) is
+			// taken while changes are pending and committed first; the original goes on
+			ru, eu := r.u.CopyCommit(op.Del)
+			rr, er := r.r.CopyCommit(op.Del)
+			x.Label("copy-committed-while-changes-pending")
+			if (eu != nil) != (er != nil) || ru != rr {
+				if x.Fail("statedb-copy-commit-differs-from-reference", "%s: Copy().Commit(%v) gives root %x (err %v), the reference %x (err %v)", where, op.Del, ru[:4], eu, rr[:4], er) {
+					return
+				}
+			}
+			if r.compare(where + " (after a copy was committed)") {
 				return
 			}
 		case "reopen":
